@@ -400,7 +400,8 @@ def r11_7(ctx, fx):
             continue
         ctx.bodies.add((fx.cfg, key))
         for d in ("inbound", "outbound"):
-            rm = [c.node for c in fn.calls(r"HandshakeService::remove_%s$" % d)]
+            it = Inter(fx, r"HandshakeService::remove_%s$" % d)
+            rm = [c.node for c in fn.calls() if not c.from_macro and it.classify_call(fn, c, 3) == ("hit",)]   # direct, or a helper that always removes
             safe = set()
             for sw in fn.discr_switches():
                 if not re.search(r"@Validating\.%s$" % d, fn.origin({"c": list(sw[1])})):
